@@ -165,6 +165,13 @@ def wrapper_entries():
     comp('TetN1*TetRT1', 'tet', E.ElementTetN1, E.ElementTetRT1)
     comp('TetCCR*TetP0', 'tet', E.ElementTetCCR, E.ElementTetP0)
     comp('TetP2*TetCR', 'tet', E.ElementTetP2, E.ElementTetCR)
+    # edge DOFs followed by facet / interior blocks with a different count per entity
+    out.append(Entry('Composite(Vector(TetP2)*TetP0)', lambda: E.ElementComposite(E.ElementVector(E.ElementTetP2()), E.ElementTetP0()),
+                     'mixed', False, False, 0, 'tet', 'composite'))
+    comp('TetCCR*TetN0', 'tet', E.ElementTetCCR, E.ElementTetN0)
+    out.append(Entry('Composite(TetP2*DG(TetP1))', lambda: E.ElementComposite(E.ElementTetP2(), E.ElementDG(E.ElementTetP1())),
+                     'mixed', False, False, 0, 'tet', 'composite'))
+    comp('HexS2*Hex0', 'hex', E.ElementHexS2, E.ElementHex0)
     comp('TetCR*TetCCR*TetP2', 'tet', E.ElementTetCR, E.ElementTetCCR, E.ElementTetP2)
     comp('HexRT1*HexS2*Hex2', 'hex', E.ElementHexRT1, E.ElementHexS2, E.ElementHex2)
     out.append(Entry('Composite(Vector(TetP2)*TetP1)', lambda: E.ElementComposite(E.ElementVector(E.ElementTetP2()),
